@@ -8,7 +8,6 @@ import (
 	"context"
 	"encoding/json"
 	"fmt"
-	"os"
 	"sort"
 	"strings"
 
@@ -139,7 +138,7 @@ func sortJSON(v interface{}) interface{} {
 // is written both ways an application can write it: an empty set, and no set at all (nil) — which one is
 // a function of the world's seed.
 func requestFeatures(features []string, w *world) graphql.FeatureSet {
-	if len(features) == 0 && os.Getenv("C13_PAD") != "" && w.seed%2 == 0 {
+	if len(features) == 0 && w.seed%2 == 0 {
 		return nil
 	}
 	return graphql.NewFeatureSet(features...)
